@@ -4,7 +4,7 @@ from __future__ import annotations
 
 import numpy as np
 
-from vlib.common import CaseResult, exc_mech, rng_for
+from vlib.common import CaseResult, exc_mech, off, rng_for
 from vlib.probes import mk_epochs
 
 ID = "C11"
@@ -69,14 +69,14 @@ def case_direct(case, res):
             got = (float(ks.step_size), float(ks.error_sum), float(ks.log_avg_step_size), float(ks.mu))
             exp = (st["step"], st["err"], st["lavg"], st["mu"])
             tol = (2e-4 * (1 + abs(np.log(st["step"]))) * st["step"], 1e-5 * (i + 2), 2e-5 * (1 + abs(st["lavg"])), 1e-6 * (1 + abs(st["mu"])))
-            if any(abs(g - e) > t_ for g, e, t_ in zip(got, exp, tol)):
+            if any(off(g, e, t_) for g, e, t_ in zip(got, exp, tol)):
                 res.violation("da-recurrence", f"da_step #{i + 1}: (step, error_sum, log_avg, mu) = {got}, reference {exp}; "
                               f"target={target} gamma={gamma} kappa={kappa} t0={t0} a={a}", {"step0": step0})
                 ok = False
                 break
         if ok:
             da_finalize(ks)
-            if abs(float(ks.step_size) - np.exp(st["lavg"])) > 2e-5 * np.exp(st["lavg"]) * (1 + abs(st["lavg"])):
+            if off(float(ks.step_size), np.exp(st["lavg"]), 2e-5 * np.exp(st["lavg"]) * (1 + abs(st["lavg"]))):
                 res.violation("da-finalize", f"da_finalize: step {float(ks.step_size)} != exp(log_avg) {np.exp(st['lavg'])}", {})
     # acceptance sequences whose errors cancel exactly (error_sum == 0 at the end of the epoch): the averaged
     # step size must still be installed by da_finalize
@@ -91,7 +91,7 @@ def case_direct(case, res):
             st = ref_step(st, a, i, target, 0.05, 0.75, 10)
         da_finalize(ks)
         res.mon("direct_recurrence")
-        if abs(float(ks.step_size) - np.exp(st["lavg"])) > 3e-5 * np.exp(st["lavg"]) * (1 + abs(st["lavg"])):
+        if off(float(ks.step_size), np.exp(st["lavg"]), 3e-5 * np.exp(st["lavg"]) * (1 + abs(st["lavg"]))):
             res.violation("da-finalize", f"acceptances {pattern} with target {target} (errors cancel: error_sum={float(ks.error_sum)}): "
                           f"da_finalize left step {float(ks.step_size)}, averaged step is {np.exp(st['lavg'])}", {"pattern": pattern})
     # monotonicity: vectorised over random states
@@ -147,6 +147,13 @@ def make_kernel(kind, cfg):
     import liesel.goose as gs
 
     da = dict(da_target_accept=cfg["target"], da_gamma=cfg["gamma"], da_kappa=cfg["kappa"], da_t0=cfg["t0"])
+    if cfg.get("late_constants"):
+        # the kernel is constructed with the default constants; the user sets the public attributes afterwards
+        k = make_kernel(kind, dict(cfg, late_constants=False, target=0.8 if kind in ("hmc", "nuts") else 0.234, gamma=0.05,
+                                   kappa=0.75, t0=10))
+        for name, val in da.items():
+            setattr(k, name, val)
+        return k
     if kind == "rw":
         return gs.RWKernel(["a"], initial_step_size=cfg["step"], **da)
     if kind == "iwls":
@@ -232,7 +239,7 @@ def case_engine(case, res):
                         alt = cur * np.sqrt(tr(pimm) / tr(new_imm))
                     if abs(step_start - alt) <= 2e-4 * alt:
                         cur = alt
-                if abs(step_start - cur) > 2e-4 * cur:
+                if off(step_start, cur, 2e-4 * cur):
                     res.violation("restart-value", f"epoch {ei + 1} (chain {c}): dual averaging restarted from step "
                                   f"{step_start} (mu={mu_e}) but the kernel's current step size is {cur}", w)
                 st = {"step": step_start, "err": 0.0, "lavg": float(np.log(step_start)), "mu": float(mu_e)}
@@ -244,7 +251,7 @@ def case_engine(case, res):
                     got = (step[c, t], err[c, t], lavg[c, t])
                     exp = (st["step"], st["err"], st["lavg"])
                     tol = (3e-4 * st["step"] * (1 + abs(np.log(st["step"]))), 2e-5 * (i + 2), 5e-5 * (1 + abs(st["lavg"])))
-                    if any(not np.isfinite(g) or abs(g - e) > t_ for g, e, t_ in zip(got, exp, tol)):
+                    if any(not np.isfinite(g) or off(g, e, t_) for g, e, t_ in zip(got, exp, tol)):
                         res.violation("engine-recurrence", f"epoch {ei + 1} transition {i} chain {c}: stored (step, error_sum, "
                                       f"log_avg) = {got}, recurrence gives {exp} (acceptance {a})", w)
                         break
@@ -275,7 +282,7 @@ def case_engine(case, res):
                     if abs(step[c, t0] - alt) <= 3e-5 * alt * (1 + abs(plavg)):
                         exp_step = alt
                     res.mon("averaged_step_installed")
-                    if abs(step[c, t0] - exp_step) > 3e-5 * exp_step * (1 + abs(plavg)):
+                    if off(step[c, t0], exp_step, 3e-5 * exp_step * (1 + abs(plavg))):
                         res.violation("average-not-installed", f"epoch {ei + 1} runs with step {step[c, t0]}, the averaged "
                                       f"step of the preceding adaptation epoch is {exp_step}", w)
         prev_last = [(step[c, t0 + d - 1], lavg[c, t0 + d - 1], None if imm is None else imm[c, t0 + d - 1], ty) for c in range(C)]
@@ -311,7 +318,8 @@ def gen_cases(tier, seed):
         kind = kinds[i % len(kinds)]
         cfg = {"step": float(np.round(np.exp(rng.uniform(np.log(0.05), np.log(2.0))), 3)), "target": float(np.round(rng.uniform(0.2, 0.9), 2)),
                "gamma": float(rng.choice([0.05, 0.2, 1.0])), "kappa": float(rng.choice([0.6, 0.75, 0.9])), "t0": int(rng.choice([1, 10, 25])),
-               "diag": bool(rng.random() < 0.6), "explicit_step": bool(rng.random() < 0.7)}
+               "diag": bool(rng.random() < 0.6), "explicit_step": bool(rng.random() < 0.7),
+               "late_constants": bool((i // len(kinds)) % 2)}
         cases.append({"kind": "engine", "idx": i, "seed": seed, "kernel": kind, "cfg": cfg, "spec": gen_spec(rng),
                       "chains": int(rng.integers(1, 3)), "engine_seed": int(rng.integers(2 ** 30)),
                       "region": ["none", "nan", "inf"][(i // len(kinds)) % 3] if kind in ("rw", "mh_on", "mh_off") else "none",
